@@ -162,7 +162,8 @@ package appencryption
 
 //@ func (defaultPartition).IsValidIntermediateKeyID
 //@   names p, id
-//@   facet C06
+//@   facet C06, C07
+//@   safety C07
 //@   ensures [C06:accepts-exactly-own-id] result == (id == ikid(p.id, p.service, p.product))
 
 // For all strings: different partitions of one service/product never share an intermediate-key id.
@@ -180,7 +181,8 @@ package appencryption
 
 //@ func (suffixedPartition).IsValidIntermediateKeyID
 //@   names p, id
-//@   facet C06
+//@   facet C06, C07
+//@   safety C07
 //@   ensures [C06:accepts-own-ids] (id == ikid(p.id, p.service, p.product) || id == ikid(p.id, p.service, p.product) + "_" + p.suffix) ==> result
 //@   ensures [C06:accepts-only-own-prefix] result ==> hasPrefix(id, ikid(p.id, p.service, p.product))
 //@   ensures [C06:isolation] forall q string, sq string :: q != p.id && (id == ikid(q, p.service, p.product) || id == ikid(q, p.service, p.product) + "_" + sq) ==> !result
